@@ -7,11 +7,15 @@ import MultiModel.Cast
 
 namespace Multi
 
-/-- every level has `offset_ == 0` (the `assert(offset_ == 0)` of `layout_t::scale`, layout.hpp:987) -/
+/-- every level has `offset_ == 0` (no longer required by the casts; kept because it is an invariant of the view algebra,
+    `zeroOff_op`) -/
 def ZeroOff (l : Layout) : Prop := ∀ d ∈ l, d.offset = 0
 
-/-- the other assertion of `scale`, at every level: `(stride_*num) % den == 0` (layout.hpp:986) -/
+/-- the stride assertion of `scale`, at every level: `(stride_*num) % den == 0` (layout.hpp:986) -/
 def ScaleDiv (l : Layout) (num den : Int) : Prop := ∀ d ∈ l, den ∣ d.stride * num
+
+/-- the offset assertion of `scale`, at every level: `(offset_*num) % den == 0` (layout.hpp:987) -/
+def ScaleDivOff (l : Layout) (num den : Int) : Prop := ∀ d ∈ l, den ∣ d.offset * num
 
 theorem ZeroOff.tail {d : Dim} {l : Layout} (h : ZeroOff (d :: l)) : ZeroOff l :=
   fun x hx => h x (List.mem_cons_of_mem _ hx)
@@ -20,9 +24,22 @@ theorem ScaleDiv.tail {d : Dim} {l : Layout} {a b : Int} (h : ScaleDiv (d :: l) 
 
 theorem scaleDiv_of_dvd (l : Layout) {num den : Int} (h : den ∣ num) : ScaleDiv l num den :=
   fun _ _ => Int.dvd_trans h (Int.dvd_mul_left _ _)
+theorem scaleDivOff_of_dvd (l : Layout) {num den : Int} (h : den ∣ num) : ScaleDivOff l num den :=
+  fun _ _ => Int.dvd_trans h (Int.dvd_mul_left _ _)
+
+/-- on a well-formed layout without empty level the offset assertion follows from the stride assertion
+    (an offset is a multiple of the stride) -/
+theorem scaleDivOff_of_wf (l : Layout) (num den : Int) (hwf : l.WF) (hne : ∀ d ∈ l, d.nelems ≠ 0) (hd : ScaleDiv l num den) :
+    ScaleDivOff l num den := by
+  intro d hdm
+  rcases (hwf d hdm).cases with h0 | ⟨f, n, _, _, hf, _, _, _⟩
+  · exact absurd h0 (hne d hdm)
+  · obtain ⟨q, hq⟩ := hd d hdm
+    exact ⟨f * q, by rw [hf]; calc f * d.stride * num = f * (d.stride * num) := by grind
+      _ = den * (f * q) := by rw [hq]; grind⟩
 
 theorem scale_cons (d : Dim) (l : Layout) (num den : Int) :
-    Layout.scale (d :: l) num den = ⟨(d.stride * num).tdiv den, d.offset, (d.nelems * num).tdiv den⟩ :: Layout.scale l num den := by
+    Layout.scale (d :: l) num den = ⟨(d.stride * num).tdiv den, (d.offset * num).tdiv den, (d.nelems * num).tdiv den⟩ :: Layout.scale l num den := by
   simp [Layout.scale]
 
 theorem scale_length (l : Layout) (num den : Int) : (Layout.scale l num den).length = l.length := by
@@ -35,36 +52,17 @@ theorem disp_eq_off (l : Layout) (idx : List Int) : l.disp idx = l.off idx := by
     | nil => simp [Layout.disp, Layout.off]
     | cons i is => simp [Layout.disp, Layout.off, ih]
 
-/-- displacements scale exactly: `den * off(scale l) = num * off(l)` on zero-based layouts whose strides pass the
-    divisibility assertion -/
-theorem scale_off (l : Layout) (num den : Int) (idx : List Int) (hz : ZeroOff l) (hd : ScaleDiv l num den) :
-    den * (Layout.scale l num den).off idx = num * l.off idx := by
-  induction l generalizing idx with
-  | nil => simp [Layout.scale, Layout.off]
-  | cons d l ih =>
-    cases idx with
-    | nil => simp [Layout.scale, Layout.off]
-    | cons i is =>
-      rw [scale_cons]
-      simp only [Layout.off]
-      have h0 : d.offset = 0 := hz d (by simp)
-      have h1 : den * (d.stride * num).tdiv den = d.stride * num := Int.mul_tdiv_cancel' (hd d (by simp))
-      have h2 := ih is hz.tail hd.tail
-      rw [h0, Int.mul_add, h2]
-      have : den * (i * (d.stride * num).tdiv den - 0) = num * (i * d.stride - 0) := by
-        have : den * (i * (d.stride * num).tdiv den - 0) = i * (den * (d.stride * num).tdiv den) := by grind
-        rw [this, h1]; grind
-      rw [this, Int.mul_add]
-
-/-- one level of `scale` on a well-formed zero-based level -/
-theorem scale_dim {d : Dim} {num den : Int} (hwf : d.WF) (h0 : d.offset = 0) (hdiv : den ∣ d.stride * num)
+/-- one level of `scale` on a well-formed level (any index base): `(stride, f·stride, n·stride) ↦ (q, f·q, n·q)` with
+    `den·q = stride·num` -/
+theorem scale_dim {d : Dim} {num den : Int} (hwf : d.WF) (hdiv : den ∣ d.stride * num)
     (hnum : 0 < num) (hden : 0 < den) :
-    let d' : Dim := ⟨(d.stride * num).tdiv den, d.offset, (d.nelems * num).tdiv den⟩
-    d'.WF ∧ d'.ext = d.ext ∧ d'.size = d.size ∧ (d'.nelems = 0 ↔ d.nelems = 0) := by
+    let d' : Dim := ⟨(d.stride * num).tdiv den, (d.offset * num).tdiv den, (d.nelems * num).tdiv den⟩
+    d'.WF ∧ d'.ext = d.ext ∧ d'.size = d.size ∧ (d'.nelems = 0 ↔ d.nelems = 0) ∧
+    (d.nelems ≠ 0 → ∀ i : Int, den * (i * d'.stride - d'.offset) = num * (i * d.stride - d.offset)) := by
   intro d'
   rcases hwf.cases with hz | ⟨f, n, hn, hs, hf, hnn, he, hsz⟩
   · have : d'.nelems = 0 := by simp [d', hz]
-    refine ⟨Or.inl this, ?_, ?_, ?_⟩
+    refine ⟨Or.inl this, ?_, ?_, ?_, fun h => absurd hz h⟩
     · rw [Dim.ext_of_nelems_zero this, Dim.ext_of_nelems_zero hz]
     · rw [Dim.size_of_nelems_zero this, Dim.size_of_nelems_zero hz]
     · simp [this, hz]
@@ -78,37 +76,53 @@ theorem scale_dim {d : Dim} {num den : Int} (hwf : d.WF) (h0 : d.offset = 0) (hd
       have : d.nelems * num = den * (n * q) := by rw [hnn]; calc n * d.stride * num = n * (d.stride * num) := by grind
         _ = den * (n * q) := by rw [hq]; grind
       rw [this]; exact Int.mul_tdiv_cancel_left _ hden0
-    have hd' : d' = ⟨q, 0 * q, n * q⟩ := by simp [d', e1, e2, h0]
+    have e3 : (d.offset * num).tdiv den = f * q := by
+      have : d.offset * num = den * (f * q) := by rw [hf]; calc f * d.stride * num = f * (d.stride * num) := by grind
+        _ = den * (f * q) := by rw [hq]; grind
+      rw [this]; exact Int.mul_tdiv_cancel_left _ hden0
+    have hd' : d' = ⟨q, f * q, n * q⟩ := by simp [d', e1, e2, e3]
     have hne : d.nelems ≠ 0 := by rw [hnn]; exact Int.ne_of_gt (Int.mul_pos hn hs)
-    have hf0 : f = 0 := by
-      rw [h0] at hf
-      rcases Int.mul_eq_zero.mp hf.symm with h | h
-      · exact h
-      · omega
-    subst hf0
-    refine ⟨?_, ?_, ?_, ?_⟩
+    refine ⟨?_, ?_, ?_, ?_, ?_⟩
     · rw [hd']; exact Dim.wf_mk hqpos hn
     · rw [hd', Dim.ext_mk hqpos hn, he]
     · rw [hd', Dim.size_mk hqpos hn, hsz]
     · rw [hd']; simp only
       have : n * q ≠ 0 := Int.ne_of_gt (Int.mul_pos hn hqpos)
       simp [this, hne]
+    · intro _ i
+      rw [hd', hf]; simp only
+      calc den * (i * q - f * q) = (i - f) * (den * q) := by grind
+        _ = (i - f) * (d.stride * num) := by rw [hq]
+        _ = num * (i * d.stride - f * d.stride) := by grind
 
-theorem scale_wf (l : Layout) (num den : Int) (hwf : l.WF) (hz : ZeroOff l) (hd : ScaleDiv l num den)
+theorem scale_wf (l : Layout) (num den : Int) (hwf : l.WF) (hd : ScaleDiv l num den)
     (hnum : 0 < num) (hden : 0 < den) :
-    (Layout.scale l num den).WF ∧ (Layout.scale l num den).exts = l.exts ∧ ZeroOff (Layout.scale l num den) := by
+    (Layout.scale l num den).WF ∧ (Layout.scale l num den).exts = l.exts := by
   induction l with
-  | nil => simp [Layout.scale, Layout.WF, Layout.exts, ZeroOff]
+  | nil => simp [Layout.scale, Layout.WF, Layout.exts]
   | cons d l ih =>
-    obtain ⟨i1, i2, i3⟩ := ih hwf.tail hz.tail hd.tail
-    obtain ⟨a1, a2, _, _⟩ := scale_dim hwf.head (hz d (by simp)) (hd d (by simp)) hnum hden
+    obtain ⟨i1, i2⟩ := ih hwf.tail hd.tail
+    obtain ⟨a1, a2, _, _, _⟩ := scale_dim hwf.head (hd d (by simp)) hnum hden
     rw [scale_cons]
-    refine ⟨Layout.WF.cons a1 i1, ?_, ?_⟩
-    · simp only [Layout.exts, List.map_cons]; rw [a2]; exact congrArg _ i2
-    · intro x hx
-      rcases List.mem_cons.mp hx with h | h
-      · subst h; exact hz d (by simp)
-      · exact i3 x h
+    refine ⟨Layout.WF.cons a1 i1, ?_⟩
+    simp only [Layout.exts, List.map_cons]; rw [a2]; exact congrArg _ i2
+
+/-- displacements scale exactly, for every index tuple of the box and every index base:
+    `den * off(scale l) idx = num * off(l) idx` -/
+theorem scale_off (l : Layout) (num den : Int) (idx : List Int) (hwf : l.WF) (hd : ScaleDiv l num den)
+    (hnum : 0 < num) (hden : 0 < den) (hin : InBox l.exts idx) :
+    den * (Layout.scale l num den).off idx = num * l.off idx := by
+  induction l generalizing idx with
+  | nil => cases idx <;> simp [Layout.scale, Layout.off]
+  | cons d l ih =>
+    simp only [Layout.exts, List.map_cons] at hin
+    obtain ⟨i, is, rfl, h1, h2, h3⟩ := inBox_cons hin
+    have hne : d.nelems ≠ 0 := by
+      intro h0; rw [Dim.ext_of_nelems_zero h0] at h1 h2; simp at h1 h2; omega
+    obtain ⟨_, _, _, _, a5⟩ := scale_dim hwf.head (hd d (by simp)) hnum hden
+    rw [scale_cons]
+    simp only [Layout.off]
+    rw [Int.mul_add, Int.mul_add, ih is hwf.tail hd.tail h3, a5 hne i]
 
 /-! ### `Op.InDomain` depends only on the extents (and, for `flatted`, on the library's `is_flattable`) -/
 
